@@ -37,6 +37,7 @@ type Prog struct {
 	files          []*ContractFile
 	modsets        map[*ssa.Function]map[string]bool
 	contractSource map[string]string // pkg -> path actually used
+	mirrorNote     map[string]string
 	sorts          map[string]bool
 }
 
@@ -69,7 +70,7 @@ func LoadProg(patterns []string) (*Prog, error) {
 	p := &Prog{prog: prog, pkgs: map[string]*packages.Package{}, spkgs: map[string]*ssa.Package{},
 		contracts: map[string]*Contract{}, ifaceContracts: map[string]*Contract{}, libContracts: map[string]*Contract{},
 		specs: map[string]*SpecFunc{}, specConsts: map[string]Param{}, pures: map[string]bool{}, modsets: map[*ssa.Function]map[string]bool{},
-		contractSource: map[string]string{}, sorts: map[string]bool{}}
+		contractSource: map[string]string{}, sorts: map[string]bool{}, mirrorNote: map[string]string{}}
 	packages.Visit(pkgs, nil, func(pk *packages.Package) {
 		p.pkgs[pk.PkgPath] = pk
 	})
@@ -95,16 +96,29 @@ func (p *Prog) LoadContracts() error {
 		rel := strings.TrimPrefix(strings.TrimPrefix(path, modulePath), "/")
 		inRepo := filepath.Join(repoDir, rel, "zz_contracts_verif.go")
 		master := filepath.Join(verifDir, "contracts", "repo", rel, "zz_contracts_verif.go")
+		// The master copy under /verif/contracts/repo is authoritative; the copy committed
+		// in the repository (build tag verif, comment-only) is its mirror.
 		use := ""
-		if _, err := os.Stat(inRepo); err == nil && !fromVerif {
-			use = inRepo
-		} else if _, err := os.Stat(master); err == nil {
+		_ = fromVerif
+		if _, err := os.Stat(master); err == nil {
 			use = master
 		} else if _, err := os.Stat(inRepo); err == nil {
 			use = inRepo
 		}
 		if use == "" {
 			continue
+		}
+		if use == master {
+			a, _ := os.ReadFile(master)
+			b, err := os.ReadFile(inRepo)
+			switch {
+			case err != nil:
+				p.mirrorNote[path] = "mirror absent in repository working tree"
+			case string(a) != string(b):
+				p.mirrorNote[path] = "mirror in repository differs from master copy"
+			default:
+				p.mirrorNote[path] = "mirror in repository identical"
+			}
 		}
 		cf, err := ParseContractFile(use, path)
 		if err != nil {
